@@ -281,9 +281,65 @@ def replay(payload):
     return common.replay_with(oracle, payload)
 
 
+def _model_preds(text):
+    """The decidable hypotheses of the partial theorems, evaluated by the extracted model on the parse of the text:
+    noadj (no two adjacent comment children anywhere), hintled (every Comment group holding a hint starts with it)."""
+    try:
+        r = vlib.run_model(['scpreds ' + vlib.cps(text)])[0]
+        return dict(p.split('=') for p in r.split() if '=' in p)
+    except Exception:  # noqa
+        return {}
+
+
+def _first_child_comment(text):
+    """Some nested group (not the statement) of the real parse tree starts with a comment: that comment has no
+    previous sibling in its own token list, so the filter deletes it without putting whitespace in its place."""
+    import sqlparse
+    from sqlparse import sql, tokens as T
+    try:
+        stmts = sqlparse.parse(text)
+    except Exception:  # noqa
+        return False
+    stack = [k for st in stmts for k in st.tokens]
+    while stack:
+        n = stack.pop()
+        if n.is_group:
+            if not isinstance(n, sql.Comment) and n.tokens and \
+                    (isinstance(n.tokens[0], sql.Comment) or n.tokens[0].ttype in T.Comment):
+                return True
+            stack.extend(n.tokens)
+    return False
+
+
 def classify(f, known):
-    """Map a failure to a known finding id by its kind."""
-    for k in known:
-        if k.get('kind') == f.get('kind'):
-            return k['id']
+    """A failure belongs to a known finding only if the MECHANISM of that finding is present in the input (the negation of
+    the hypothesis of the corresponding partial theorem), so that the same kind of damage on other inputs is reported as new:
+      sc-adjacent-comments    kind comment-left / not-idempotent, and the parse has two adjacent comment children
+                              (theorem sc_no_comments_partial / sc_idem_no_adjacent: impossible otherwise)
+      sc-hint-after-comment   kind hint-removed / fused / not-idempotent, and some Comment group holding a hint does not start
+                              with it (theorem sc_hints_preserved: impossible otherwise)
+      sc-first-child-comment  kind fused, and some nested group starts with a comment (prev_ is None there)"""
+    kind = f.get('kind')
+    text = ''.join(map(chr, f.get('input', [])))
+    ids = {k.get('class'): k['id'] for k in known}
+    pr = None
+    if kind in ('comment-left', 'not-idempotent', 'hint-removed', 'fused'):
+        pr = _model_preds(text)
+    if kind in ('comment-left', 'not-idempotent') and pr.get('noadj') == '0' and 'sc-adjacent-comments' in ids:
+        return ids['sc-adjacent-comments']
+    if kind in ('hint-removed', 'fused', 'not-idempotent', 'comment-left') and pr and pr.get('hintled') == '0' \
+            and 'sc-hint-after-comment' in ids:
+        return ids['sc-hint-after-comment']
+    if kind == 'fused' and 'sc-first-child-comment' in ids and _first_child_comment(text):
+        return ids['sc-first-child-comment']
+    return None
+
+
+def rederive_known(k):
+    w = k.get('witness', {}).get('input')
+    if w is None:
+        return None
+    for f in oracle_all(''.join(map(chr, w))):
+        if f['kind'] in VIOLATION_KINDS and classify(f, [k]) == k['id']:
+            return f
     return None
